@@ -6,6 +6,9 @@
 mod capx {
     use bump_scope::alloc::{AllocError, Allocator, Global};
     use bump_scope::{Bump, BumpVec, FixedBumpVec, MutBumpVec, MutBumpVecRev};
+    use bump_scope::settings::BumpSettings;
+    type BumpA = Bump<Moody2, BumpSettings<1, true>>;
+    type BumpB = Bump<Moody2, BumpSettings<8, false>>;
     use std::alloc::Layout;
     use std::cell::Cell;
     use std::ptr::NonNull;
@@ -59,11 +62,12 @@ mod capx {
     }
 
     macro_rules! history {
-        ($t:ty, $kind:expr, $init:expr, $ops:expr, $chunk:expr, $other:expr) => {{
+        ($t:ty, $bt:ty, $cfg:expr, $kind:expr, $init:expr, $ops:expr, $chunk:expr, $other:expr) => {{
             let kind: u8 = $kind;
             let fixed = kind == 1;
             let rev = kind == 3;
-            let mut bump: Bump<Moody2> = Bump::with_size_in($chunk, Moody2);
+            let mut bump: $bt = Bump::with_size_in($chunk, Moody2);
+            let cfg_: u8 = $cfg;
             let mut line = format!("V {} {} {} {} {} {}", ["bv", "fv", "mv", "rv"][kind as usize], core::mem::size_of::<$t>(), core::mem::align_of::<$t>(), $init, $chunk, $other as u8);
             let mut notes: Vec<String> = vec![];
             // element value: every byte 0x5A (all element types here are plain integers / arrays of them)
@@ -74,7 +78,7 @@ mod capx {
             macro_rules! drive {
                 ($v:ident, $foreign:expr) => {{
                     // the capacity the vector starts with (MutBumpVec: the rest of the chunk)
-                    line.push_str(&format!(" {}", $v.capacity()));
+                    line.push_str(&format!(" {} {}", $v.capacity(), cfg_));
                     for (op, refuse) in $ops.iter() {
                         // sometimes something else is allocated in between: the vector is then not the last allocation
                         if $other && matches!(op, VOp::Push | VOp::ShrinkToFit | VOp::ShrinkTo(_) | VOp::Extend(_)) { if let Some(a) = $foreign { foreign.push(a); } }
@@ -133,8 +137,8 @@ mod capx {
                     VOp::Truncate(k) => { $vv.truncate(k); (true, $vv.len()) }
                     _ => (true, $vv.len()),
                 } }}; }
-                if rev { let mut v: MutBumpVecRev<$t, &mut Bump<Moody2>> = MutBumpVecRev::with_capacity_in($init, &mut bump); drive!(v, None::<usize>); }
-                else { let mut v: MutBumpVec<$t, &mut Bump<Moody2>> = MutBumpVec::with_capacity_in($init, &mut bump); drive!(v, None::<usize>); }
+                if rev { let mut v: MutBumpVecRev<$t, &mut $bt> = MutBumpVecRev::with_capacity_in($init, &mut bump); drive!(v, None::<usize>); }
+                else { let mut v: MutBumpVec<$t, &mut $bt> = MutBumpVec::with_capacity_in($init, &mut bump); drive!(v, None::<usize>); }
             } else if fixed {
                 let mut v: FixedBumpVec<$t> = FixedBumpVec::with_capacity_in($init, &bump);
                 macro_rules! drive_op { ($vv:ident, $op:expr) => {{ match *$op {
@@ -146,7 +150,7 @@ mod capx {
                 } }}; }
                 drive!(v, Some(bump.alloc(0xA5u8).into_raw().as_ptr() as usize));
             } else {
-                let mut v: BumpVec<$t, &Bump<Moody2>> = BumpVec::with_capacity_in($init, &bump);
+                let mut v: BumpVec<$t, &$bt> = BumpVec::with_capacity_in($init, &bump);
                 macro_rules! drive_op { ($vv:ident, $op:expr) => {{ match *$op {
                     VOp::Reserve(n) => { let l = $vv.len(); ($vv.try_reserve(n).is_ok(), l) }
                     VOp::ReserveExact(n) => { let l = $vv.len(); ($vv.try_reserve_exact(n).is_ok(), l) }
@@ -178,20 +182,26 @@ mod capx {
     }
 
     fn run_history_inner(ty: u64, kind: u8, init: usize, ops: &[(VOp, bool)], chunk: usize, other: bool) -> (Vec<String>, String) {
+        // ty = element type + 5 * settings (0: upwards, MIN_ALIGN 1; 1: downwards, MIN_ALIGN 8)
         match ty {
-            0 => history!(u8, kind, init, ops, chunk, other),
-            1 => history!(u32, kind, init, ops, chunk, other),
-            2 => history!(u64, kind, init, ops, chunk, other),
-            3 => history!([u8; 24], kind, init, ops, chunk, other),
-            _ => history!([u64; 200], kind, init, ops, chunk, other),
+            0 => history!(u8, BumpA, 0, kind, init, ops, chunk, other),
+            1 => history!(u32, BumpA, 0, kind, init, ops, chunk, other),
+            2 => history!(u64, BumpA, 0, kind, init, ops, chunk, other),
+            3 => history!([u8; 24], BumpA, 0, kind, init, ops, chunk, other),
+            4 => history!([u64; 200], BumpA, 0, kind, init, ops, chunk, other),
+            5 => history!(u8, BumpB, 1, kind, init, ops, chunk, other),
+            6 => history!(u32, BumpB, 1, kind, init, ops, chunk, other),
+            7 => history!(u64, BumpB, 1, kind, init, ops, chunk, other),
+            8 => history!([u8; 24], BumpB, 1, kind, init, ops, chunk, other),
+            _ => history!([u64; 200], BumpB, 1, kind, init, ops, chunk, other),
         }
     }
 
     /// the input of a history (no results), written and flushed before it runs: if the crate then
     /// corrupts memory and the process dies, this line is the failing input
     pub fn input_line(ty: u64, kind: u8, init: usize, ops: &[(VOp, bool)], chunk: usize, other: bool) -> String {
-        let (sz, al) = [(1, 1), (4, 4), (8, 8), (24, 1), (1600, 8)][ty.min(4) as usize];
-        let mut l = format!("VB {} {sz} {al} {init} {chunk} {} 0", ["bv", "fv", "mv", "rv"][kind.min(3) as usize], other as u8);
+        let (sz, al) = [(1, 1), (4, 4), (8, 8), (24, 1), (1600, 8)][(ty % 5) as usize];
+        let mut l = format!("VB {} {sz} {al} {init} {chunk} {} 0 {}", ["bv", "fv", "mv", "rv"][kind.min(3) as usize], other as u8, ty / 5);
         for (op, refuse) in ops { let (nm, arg) = name(op); l.push_str(&format!(";{nm},{arg},{}", *refuse as u8)); }
         l
     }
@@ -205,7 +215,7 @@ mod capx {
         let ops = gen_ops(r, kind);
         let chunk = match r.below(3) { 0 => 512usize, 1 => 2048, _ => 16384 };
         let other = r.coin(1, 3);
-        let ty = r.below(5);
+        let ty = r.below(10);
         announce(&input_line(ty, kind, init, &ops, chunk, other));
         run_history(ty, kind, init, &ops, chunk, other)
     }
@@ -217,7 +227,7 @@ mod capx {
         if head.len() < 6 { return None; }
         let kind: u8 = match head[0] { "fv" => 1, "mv" => 2, "rv" => 3, _ => 0 };
         if head[1] == "0" { return zst_replay(kind, fields); }
-        let ty = match (head[1], head[2]) { ("1", _) => 0, ("4", _) => 1, ("8", _) => 2, ("24", _) => 3, _ => 4 };
+        let ty = match (head[1], head[2]) { ("1", _) => 0, ("4", _) => 1, ("8", _) => 2, ("24", _) => 3, _ => 4 } + 5 * head.get(7).and_then(|x| x.parse::<u64>().ok()).unwrap_or(0).min(1);
         let init: usize = head[3].parse().ok()?;
         let chunk: usize = head[4].parse().ok()?;
         let other = head[5] == "1";
